@@ -17,6 +17,27 @@ func (vc *VC) heapGet(st *State, name, sort string, elemT types.Type) Term {
 	if t, ok := st.heap[name]; ok {
 		return t
 	}
+	if st.havocTok != "" {
+		// the state went through a call without a frame: heaps that were not materialised then are unknown too
+		key := st.havocTok + "|" + name
+		if t, ok := vc.lazyHeaps[key]; ok {
+			return t
+		}
+		if _, known := vc.heapSort[name]; !known {
+			vc.heapSort[name] = sort
+			vc.heapElemT[name] = elemT
+		}
+		sym := name + "@" + st.havocTok
+		vc.declare(sym, sort)
+		t := Term{S: sym, Sort: sort}
+		vc.lazyHeaps[key] = t
+		if f := vc.heapWF(name, sym, "alloc@0"); f != "true" {
+			// refs stored in the unknown heap are only known to be non-negative; keep the shape facts
+			vc.base = append(vc.base, strings.ReplaceAll(f, "alloc@0", "alloc@inf"))
+			vc.declare("alloc@inf", "Int")
+		}
+		return t
+	}
 	if t, ok := vc.heap0[name]; ok {
 		return t
 	}
@@ -278,7 +299,7 @@ func (vc *VC) chanInfo(t types.Type) chanHeaps {
 	e := vc.ts.apply(ct.Elem())
 	es := vc.u.SortOf(e)
 	ss := vc.u.SortOf(types.NewSlice(e))
-	return chanHeaps{E: e, es: es, ss: ss, bn: "Chb$" + sanitize(es), cn: "Chc", kn: "Chk", bsort: "(Array Int " + ss + ")"}
+	return chanHeaps{E: e, es: es, ss: ss, bn: "Chb$" + sanitize(typeKey(e)), cn: "Chc", kn: "Chk", bsort: "(Array Int " + ss + ")"}
 }
 
 func (vc *VC) chanBuf(st *State, ci chanHeaps, ref string) Term {
